@@ -1584,7 +1584,15 @@ func handlerTags(c *core.Ctx, r *Roles, fn *ssa.Function) []string {
 				isCallee = true
 			}
 		})
-		if isCallee && top.Parent() == nil && reachesAPI(c, r, top, "Repo", "IndexInsert", 0, map[*ssa.Function]bool{}) {
+		storesBlob := false
+		if isCallee {
+			an.Calls(top, func(call ssa.CallInstruction) {
+				if isBlobCreate(r, call) {
+					storesBlob = true
+				}
+			})
+		}
+		if isCallee && top.Parent() == nil && (storesBlob || reachesAPI(c, r, top, "Repo", "IndexInsert", 0, map[*ssa.Function]bool{})) {
 			dup := false
 			for _, t := range tags {
 				if t == "referrer" {
